@@ -98,6 +98,9 @@ OPS: Dict[str, Any] = {
     "imul": _d("imul", rxn=_k, factor=st.sampled_from([2, 0.5, -1, -2, 3, 1.5])),
     "iadd": _d("iadd", rxn=_k, other=_k, foreign=st.booleans(), sub=st.booleans()),
     "copy": _d("copy", how=st.sampled_from(["copy", "copy", "deepcopy", "pickle"])),
+    # prune_unused_metabolites / prune_unused_reactions: "returns a new model" - the history continues on it, the argument
+    # is kept and re-audited like the original of a copy
+    "prune": _d("prune", what=st.sampled_from(["mets", "rxns"])),
     "solver": _d("solver", name=st.sampled_from(["glpk", "glpk_exact"])),
     "enter": _d("enter"),
     "exit": _d("exit"),
@@ -272,9 +275,9 @@ class World:
         name = op["op"]
         if name == "block":
             return self.run_block(op)
-        if self.depth() and name not in REVERSIBLE and name not in ("enter", "exit", "copy") and name not in self.extra_in_context:
+        if self.depth() and name not in REVERSIBLE and name not in ("enter", "exit", "copy", "prune") and name not in self.extra_in_context:
             out = "skipped:not-reversible-in-context"
-        elif self.in_block and name in ("copy", "enter", "exit") and not op.get("_block"):
+        elif self.in_block and name in ("copy", "prune", "enter", "exit") and not op.get("_block"):
             out = "skipped:inside-block"
         else:
             fn = getattr(self, "op_" + name)
@@ -616,6 +619,17 @@ class World:
         else:
             new = pickle.loads(pickle.dumps(m))
         self.on_copy(m, new, op["how"])
+        return "ok"
+
+    def op_prune(self, op):
+        from cobra.manipulation import prune_unused_metabolites, prune_unused_reactions
+
+        m = self.model
+        mets = op["what"] == "mets"
+        unused = sorted(x.id for x in (m.metabolites if mets else m.reactions) if len(x.reactions if mets else x.metabolites) == 0)
+        new, removed = (prune_unused_metabolites if mets else prune_unused_reactions)(m)
+        self.on_copy(m, new, "prune")
+        self.pruned = (unused, sorted(x.id for x in removed))  # documented second return value: what was removed
         return "ok"
 
     def on_copy(self, old, new, how):
